@@ -214,6 +214,7 @@ theorem live_local (P : Program) (F : Flags) (c : Config) (a : Nat) (x y : Act) 
     | none => subst heq; exact hold e he
     | acq => subst heq; exact hold e he
     | rel => subst heq; exact hold e he
+    | wait k0 => subst heq; exact hold e he
   · -- waits
     intro b z k hz hw
     rcases hback b z hz with ⟨_, rfl⟩ | ⟨_, hz'⟩
